@@ -19,6 +19,7 @@ import (
 	"github.com/btcsuite/btcd/btcec/v2/schnorr"
 	"github.com/dominant-strategies/go-quai/common"
 	"github.com/dominant-strategies/go-quai/core/rawdb"
+	"github.com/dominant-strategies/go-quai/core/state"
 	"github.com/dominant-strategies/go-quai/core/types"
 	"github.com/dominant-strategies/go-quai/crypto"
 	"github.com/dominant-strategies/go-quai/crypto/multiset"
@@ -382,4 +383,42 @@ func (n *VNode) VCanon() map[string]string {
 		out["addrindex"] = ab.String()
 	}
 	return out
+}
+
+// ---- state access at the current head -----------------------------------------------------------
+
+func (n *VNode) VStateAt(blk *types.WorkObject) (*state.StateDB, error) {
+	z := n.Sl[2]
+	if z.hc.IsGenesisHash(blk.Hash()) {
+		return z.hc.bc.processor.StateAt(types.EmptyRootHash, types.EmptyRootHash, big.NewInt(0))
+	}
+	return z.hc.bc.processor.StateAt(blk.EVMRoot(), blk.EtxSetRoot(), blk.QuaiStateSize())
+}
+
+func (n *VNode) VNonce(a common.Address) uint64 {
+	st, err := n.VStateAt(n.Heads[2])
+	if err != nil {
+		panic("harness: state at head: " + err.Error())
+	}
+	ia, err := a.InternalAddress()
+	if err != nil {
+		return 0
+	}
+	return st.GetNonce(ia)
+}
+
+func (n *VNode) VBalance(a common.Address) *big.Int {
+	st, err := n.VStateAt(n.Heads[2])
+	if err != nil {
+		panic("harness: state at head: " + err.Error())
+	}
+	ia, err := a.InternalAddress()
+	if err != nil {
+		return new(big.Int)
+	}
+	return st.GetBalance(ia)
+}
+
+func (n *VNode) VReceipts(blk *types.WorkObject) types.Receipts {
+	return n.Sl[2].hc.bc.processor.GetReceiptsByHash(blk.Hash())
 }
